@@ -232,6 +232,8 @@ func RunParent(id, tier string) int {
 	lostShards := 0
 	seqReruns := 0
 	var inconclusiveAfterSeq []string
+	confirmedHang := map[string]bool{}
+	extraHangs := 0
 	for k := 0; k < n; k++ {
 		r := results[k]
 		base := filepath.Join(dir, fmt.Sprintf("shard-%d", k))
@@ -260,12 +262,15 @@ func RunParent(id, tier string) int {
 			}
 			env := childEnv(p, k, tier, dir)
 			rlog := base + ".confirm.log"
-			wd := 120
+			wd := 180
 			if r.timedOut {
-				wd = 10 * watchdog
-				if wd > 3600 {
-					wd = 3600
+				if confirmedHang[bc.Monitor] {
+					// the same monitor already has a confirmed hang in this run: do not pay for confirming every shard
+					extraHangs++
+					lostShards++
+					continue
 				}
+				wd = int(caseTimeout(p, tier, 3).Seconds()) + 60
 			}
 			exit2, to2 := runChild(bin, []string{"replaycase", id, tier, strconv.FormatInt(seed, 10), dir, base + ".cur", strconv.Itoa(1000 + k)}, env, rlog, wd)
 			switch {
@@ -304,6 +309,7 @@ func RunParent(id, tier string) int {
 				}
 				continue
 			case to2 && r.timedOut:
+				confirmedHang[bc.Monitor] = true
 				if p.CrashIsViolation {
 					viols = append(viols, Violation{Property: id, Monitor: bc.Monitor, Sig: id + "/hang@" + bc.Monitor, Seed: seed, Shard: k, Case: bc.Case,
 						Detail: fmt.Sprintf("no result within %d s, again alone within %d s", watchdog, wd)})
@@ -355,6 +361,9 @@ func RunParent(id, tier string) int {
 				distinct[u] = struct{}{}
 			}
 		}
+	}
+	if extraHangs > 0 {
+		agg.Counters["further_shards_hanging_like_the_confirmed_one"] = int64(extraHangs)
 	}
 	if p.Race {
 		for _, rr := range collectRaceReports(dir) {
@@ -700,7 +709,7 @@ func RunReplayCase(args []string) int {
 	}
 	w := NewW(id, tier, seed, shard, 1, dir)
 	w.Replay = true
-	w.StartWatchdog(caseTimeout(p, tier, 10))
+	w.StartWatchdog(caseTimeout(p, tier, 3))
 	if err := p.ReplayCase(w, bc.Monitor, bc.Case); err != nil {
 		fmt.Fprintln(os.Stderr, "replay:", err)
 		return 3
